@@ -353,7 +353,8 @@ class Prop:
                    "by rounding (norm ~1e-8 against a 1e-10 threshold) - a logic.py robustness defect outside this property",
                    "marginals are torch vectors (NumPy arrays are rejected by the implementation with TypeError)"]
     THEOREMS = ["C09_sobol_parts", "C09_extended_is_anova", "C09_parseval", "C09_total_variance", "C09_num_by_subsets",
-                "C09_den_by_subsets", "C09_additive", "C09_any_is_total", "C09_mean_dimension", "C09_mean_dimension_masked"]
+                "C09_den_by_subsets", "C09_additive", "C09_any_is_total", "C09_mean_dimension", "C09_mean_dimension_masked", "C09_components_nonneg", "C09_empty_component",
+                "C09_monotone", "C09_unit_interval", "C09_mean_dimension_ge_1"]
 
     # ------------------------------------------------------------------ generation
     def generate(self, rng, tier):
